@@ -23,7 +23,7 @@ LOCAL4 = 4200000001
 class OutSession:
     _n = 0
 
-    def __init__(self, ibgp: bool, local4: bool, pasn4: bool, addpath: bool, ext: bool, extnh: bool = False, families='ipv4 unicast; ipv6 unicast;', second: bool = False) -> None:
+    def __init__(self, ibgp: bool, local4: bool, pasn4: bool, addpath: bool, ext: bool, extnh: bool = False, families='ipv4 unicast; ipv6 unicast;', second: bool = False, peer_mp=((1, 1), (2, 1))) -> None:
         OutSession._n += 1
         local_as = LOCAL4 if local4 else 65000
         peer_as = local_as if ibgp else 65001
@@ -58,7 +58,7 @@ neighbor {addr} {{
         self.neg = Negotiated.make_negotiated(n, Direction.OUT)
         ours = Open.make_open(Version(4), n.session.local_as, n.hold_time, n.session.router_id, Capabilities().new(n, False))
         self.neg.sent(ours)
-        caps = [bgpmsg.cap_mp(1, 1), bgpmsg.cap_mp(2, 1), bgpmsg.cap_rr()]
+        caps = [bgpmsg.cap_mp(a, b) for a, b in peer_mp] + [bgpmsg.cap_rr()]
         if pasn4:
             caps.append(bgpmsg.cap_asn4(peer_as))
         if addpath:
